@@ -13,6 +13,7 @@ import shutil
 from vlib import core
 
 THEOREMS = ["C05_merge_keys", "C05_select", "C05_conflicts", "C05_unused", "C05_spec", "C05_cross", "C05_cross_pass1", "C05_select_forms",
+            "C05_static_select", "C05_static_select_level", "C05_static_other_args",
             "C05_old_refuted", "C05_lone_other_refuted", "C05_panic_old_refuted"]
 PROPS = "theories/Props/C05.v"
 REGISTRY = {
@@ -255,7 +256,7 @@ def level_cases(loc, cats, src, raw, out, warns, impl_err, impl_panic, path, acc
 # ---------------------------------------------------------------- runtime level
 
 def parse_rt(out):
-    rt = {"C": {}, "T": {}, "P": {}, "S": {}, "H": {}, "O": {}}
+    rt = {"C": {}, "T": {}, "P": {}, "S": {}, "H": {}, "O": {}, "F": {}}
     for line in out.split("\n"):
         if not line:
             continue
@@ -267,6 +268,9 @@ def parse_rt(out):
         elif tag in ("C", "T", "P"):
             loc, r, body = rest.split(" ", 2)
             rt[tag][(loc, r)] = body
+        elif tag == "F":
+            loc, rkey, pk, n, text = rest.split(" ", 4)
+            rt["F"].setdefault((loc, pk), []).append((int(n), text))
         elif tag in ("S", "H", "O"):
             loc, key, body = rest.split(" ", 2)
             rt[tag][(loc, key)] = body.split("\x1f")
@@ -311,7 +315,7 @@ def run_runtime(ctx, exe, findings):
                                                            core.coq_list([COQ_FORM[c] for c in cats])))
             meta.append((loc, r, table, cats))
             res["table_entries"] += len(table)
-    codes = core.coq_eval(ctx, "c05t", pre, items, "check_table", min_per_shard=2)
+    codes = core.coq_eval(ctx, "c05t_%d" % os.getpid(), pre, items, "check_table", min_per_shard=2)
     for (loc, r, table, cats), c in zip(meta, codes):
         if c != 0:
             # c-1 = index of the first differing operand, or 100000 = categories() differ
@@ -366,7 +370,28 @@ def run_runtime(ctx, exe, findings):
                 meta.append({"locale": loc, "key": key, "accessor": {"S": "td_string!", "H": "td!(..).to_html()",
                                                                      "O": "td_string! with decimal PluralOperands"}[kind],
                              "written_forms": forms, "operands": opnds, "table": table, "got": got})
-    codes = core.coq_eval(ctx, "c05r", PRE_RT, items, "check_render", min_per_shard=20)
+    # 4. `$t(key, {"count": N})` keys of the compiled project: selected while load_locales! runs, for the referencing locale
+    for (loc, key), rows in sorted(rt["F"].items()):
+        r = "o" if key.startswith("o") else "c"
+        t1 = rt["T"][(loc, r)].split("|")[0].split(",")
+        forms = fixed_forms(key)
+        table, rendered, opnds, got = [], [], [], []
+        for n, text in rows:
+            res["renderings"] += 1
+            parts = text.split("|")
+            okp = len(parts) >= 3 and parts[0] == loc and parts[1] == key and parts[2] in FORMS
+            # the same text as the run-time selection for that count
+            if okp and text != rt["S"][(loc, key)][ns.index(n)]:
+                okp = False
+            table.append(t1[ns.index(n)])
+            rendered.append("(Some %s)" % COQ_FORM[parts[2]] if okp else "None")
+            opnds.append(n)
+            got.append(text)
+        items.append("(mk_rcase %s %s %s)" % (core.coq_list([COQ_FORM[f] for f in forms]),
+                                              core.coq_list([COQ_FORM[c] for c in table]), core.coq_list(rendered)))
+        meta.append({"locale": loc, "key": key, "accessor": "td_string!(locale, r<key>_<N>) where r<key>_<N> = $t(<key>, {\"count\": N})",
+                     "written_forms": forms, "operands": opnds, "table": table, "got": got})
+    codes = core.coq_eval(ctx, "c05r_%d" % os.getpid(), PRE_RT, items, "check_render", min_per_shard=20)
     for m, c in zip(meta, codes):
         if c != 0:
             i = c - 1
@@ -376,6 +401,136 @@ def run_runtime(ctx, exe, findings):
                                        "explanation": "the rendered text is not the form written for the CLDR category of this "
                                                       "count in this locale (nor `_other` when that form was not written)"})
     res["rt_cases"] = len(items)
+    return res
+
+
+# ---------------------------------------------------------------- parse-time selection: $t(plural, {"count": N})
+
+STATIC_INTS = list(range(0, 31)) + [100, 101, 111, 1000000, 1000001]
+STATIC_NEG = [-1, -2, -11]             # ICU4X `From<i64> for PluralOperands` takes the absolute value
+STATIC_DEC = ["0.5", "1.5", "2.5", "3.14"]
+
+
+def run_static(ctx, exe, rt):
+    """projects whose locales reference their plural keys with a literal count; the final value of every reference after the
+    whole pipeline must be the form CLDR assigns to that count FOR THAT LOCALE (spec_static, evaluated in Coq)"""
+    rng = ctx.rng
+    ns, ds = rt["N"], rt["D"]
+    counts = [(str(n), ns.index(n), 0) for n in STATIC_INTS] + [(str(n), ns.index(-n), 0) for n in STATIC_NEG] + \
+             [(d, ds.index(d), 1) for d in STATIC_DEC]
+    nkeys = 6 if ctx.quick else 32
+    start = rng.randrange(32)
+    projects = []
+    per_project = 4
+    keys_all = [(i, r) for i in range(nkeys) for r in ("c", "o")]
+    ids = Ids()
+    for off in range(0, len(keys_all), per_project):
+        proj = {"keys": keys_all[off:off + per_project], "files": {l: {} for l in LOCALES}, "written": {}}
+        for (i, r) in proj["keys"]:
+            pk = "p%s%d" % (r, i)
+            for j, loc in enumerate(LOCALES):
+                mask = (start + i + 5 * j) % 32
+                forms = [f for b, f in enumerate(FORMS[:5]) if mask >> b & 1] + ["other"]
+                w = []
+                for f in forms:
+                    fid = ids()
+                    proj["files"][loc]["%s%s_%s" % (pk, "_ordinal" if r == "o" else "", f)] = "#%d %s" % (fid, f)
+                    w.append((f, fid))
+                proj["written"][(loc, pk)] = w
+                for ci, (lit, _, _) in enumerate(counts):
+                    proj["files"][loc]["r%s%d_n%d" % (r, i, ci)] = "$t(%s, {\"count\": %s})" % (pk, lit)
+        projects.append(proj)
+    root = os.path.join(ctx.work, "static_%d" % os.getpid())
+    shutil.rmtree(root, ignore_errors=True)
+    dirs = []
+    for k, proj in enumerate(projects):
+        d = os.path.join(root, "s%d" % k)
+        os.makedirs(os.path.join(d, "locales"))
+        with open(os.path.join(d, "Cargo.toml"), "w") as fh:
+            fh.write('[package]\nname = "p"\nversion = "0.1.0"\nedition = "2021"\n\n[package.metadata.leptos-i18n]\n'
+                     'default = "en"\nlocales = [%s]\n' % ", ".join('"%s"' % l for l in LOCALES))
+        for loc in LOCALES:
+            with open(os.path.join(d, "locales", loc + ".json"), "w") as fh:
+                json.dump(proj["files"][loc], fh)
+        dirs.append(d)
+    # error paths and renaming, one tiny project each: (count literal, expected)
+    other_args = [('"abc"', "InvalidCountArg"), ("true", "InvalidCountArg"), ('"x {{ n }}"', "InvalidCountArg"),
+                  ('"<b>{{ n }}</b>"', "InvalidCountArg"), ('" {{ n }} "', "rename:var_n"), ('"{{ n }}"', "rename:var_n")]
+    for k, (lit, exp) in enumerate(other_args):
+        d = os.path.join(root, "e%d" % k)
+        os.makedirs(os.path.join(d, "locales"))
+        with open(os.path.join(d, "Cargo.toml"), "w") as fh:
+            fh.write('[package]\nname = "p"\nversion = "0.1.0"\nedition = "2021"\n\n[package.metadata.leptos-i18n]\n'
+                     'default = "en"\nlocales = ["en", "fr"]\n')
+        for loc in ("en", "fr"):
+            f = {"p_one": "#1 one", "p_other": "#2 other", "bad": "plain"}
+            if loc == "fr":
+                f["bad"] = "$t(p, {\"count\": %s})" % lit
+            with open(os.path.join(d, "locales", loc + ".json"), "w") as fh:
+                json.dump(f, fh)
+        dirs.append(d)
+    rc, out, err = core.sh([exe, "parse"], input="".join(d + "\n" for d in dirs), timeout=900)
+    lines = out.splitlines()
+    if rc != 0 or len(lines) != len(dirs):
+        raise core.Infra("h_plurals parse (static): %d lines for %d projects; %s" % (len(lines), len(dirs), err[-400:]))
+    res = {"cases": 0, "references": 0, "fail": [], "disagree": [], "pipeline_problems": [], "other_args_fail": []}
+    items, meta = [], []
+    for proj, line in zip(projects, lines):
+        pipe = json.loads(line).get("pipeline")
+        if not isinstance(pipe, dict) or "ok" not in pipe:
+            res["pipeline_problems"].append({"keys": proj["keys"], "pipeline": pipe})
+            continue
+        for lo in pipe["ok"]["final"]:
+            loc = lo["name"]
+            final = {n: t for n, t in lo["keys"]}
+            for (i, r) in proj["keys"]:
+                pk = "p%s%d" % (r, i)
+                t1, t2 = rt["T"][(loc, r)].split("|")
+                tables = (t1.split(","), t2.split(","))
+                table, got = [], []
+                for ci, (lit, idx, which) in enumerate(counts):
+                    table.append(tables[which][idx])
+                    t = final.get("r%s%d_n%d" % (r, i, ci))
+                    got.append(int(t["id"]) if t and t.get("k") == "leaf" and t.get("id") else None)
+                w = proj["written"][(loc, pk)]
+                items.append("(mk_scase %s %s %s)" % (
+                    core.coq_list(["(%s, %d)" % (COQ_FORM[f], fid) for f, fid in w]),
+                    core.coq_list([COQ_FORM[c] for c in table]),
+                    core.coq_list(["(Some %d)" % g if g is not None else "None" for g in got])))
+                meta.append({"locale": loc, "default_locale": "en", "plural_key": pk, "rule": "cardinal" if r == "c" else "ordinal",
+                             "written_forms": {f: fid for f, fid in w}, "counts": [c[0] for c in counts],
+                             "cldr_category_for_this_locale": table, "final_value_ids": got})
+                res["references"] += len(counts)
+    codes = core.coq_eval(ctx, "c05s_%d" % os.getpid(), PRE, items, "check_static", min_per_shard=20)
+    res["cases"] = len(items)
+    for m, c in zip(meta, codes):
+        if c == 3:
+            byid = {v: k for k, v in m["written_forms"].items()}
+            bad = [(cnt, cat, byid.get(g, g)) for cnt, cat, g in zip(m["counts"], m["cldr_category_for_this_locale"], m["final_value_ids"])
+                   if byid.get(g) != (cat if cat in m["written_forms"] else "other")]
+            m = dict(m, first_wrong=[{"count": b[0], "cldr_category": b[1], "form_selected_at_parse_time": b[2]} for b in bad[:4]],
+                     explanation="`$t(%s, {\"count\": N})` in locale %s was resolved to a form that is not the one CLDR assigns to N "
+                                 "for %s (parse-time selection, Plurals::populate_with_count_arg)" % (m["plural_key"], m["locale"], m["locale"]))
+            res["fail"].append(m)
+        elif c == 2:
+            res["disagree"].append(m)
+    for (lit, exp), line in zip(other_args, lines[len(projects):]):
+        o = json.loads(line)
+        pipe = o.get("pipeline")
+        got = None
+        if isinstance(pipe, dict) and "err" in pipe:
+            e = pipe["err"]
+            got = e["kind"] if (e.get("locale") == "fr" and e.get("path") == ["bad"]) or e["kind"] != "InvalidCountArg" \
+                else "InvalidCountArg naming locale %s key %s" % (e.get("locale"), e.get("path"))
+        elif isinstance(pipe, dict) and "ok" in pipe:
+            fr = next(l for l in pipe["ok"]["final"] if l["name"] == "fr")
+            t = dict((n, t) for n, t in fr["keys"]).get("bad")
+            got = "rename:%s" % t.get("count") if t and t.get("k") == "plural" else "value:%s" % json.dumps(t)
+        else:
+            got = pipe
+        if got != exp:
+            res["other_args_fail"].append({"count_argument": lit, "expected": exp, "got": got})
+    shutil.rmtree(root, ignore_errors=True)
     return res
 
 
@@ -429,7 +584,7 @@ def run(ctx):
             cats.setdefault(loc, {})[r] = body.split(",")
     projects = gen_projects(ctx, 40 if ctx.quick else 1200)
     dirs = []
-    root = os.path.join(ctx.work, "proj")
+    root = os.path.join(ctx.work, "proj_%d" % os.getpid())
     shutil.rmtree(root, ignore_errors=True)
     for i, data in enumerate(projects):
         d = os.path.join(root, "p%d" % i)
@@ -457,7 +612,7 @@ def run(ctx):
             if not good:
                 shape_problems.append({"project": pi, "locale": loc, "raw": lo["raw"]})
             locale_results.append((pi, loc, start, len(acc), impl_panic, impl_err))
-    codes = core.coq_eval(ctx, "c05", PRE, [a for a, _ in acc], "check")
+    codes = core.coq_eval(ctx, "c05_%d" % os.getpid(), PRE, [a for a, _ in acc], "check")
     metas = [m for _, m in acc]
     bad_spec = [dict(m, code=c) for m, c in zip(metas, codes) if c == 3 and m.get("impl_merge") != "PANIC"]
     panic_spec = [dict(m, code=c) for m, c in zip(metas, codes) if c == 3 and m.get("impl_merge") == "PANIC"]
@@ -477,7 +632,7 @@ def run(ctx):
             disagree.append({"project": pi, "locale": loc, "impl_error_not_attributable_to_a_level": impl_err})
     # which algorithm does /repo run? (informational: the pre-fix model is kept as merge_level_old)
     sample_old = [a for a, m in acc[:200]]
-    codes_old = core.coq_eval(ctx, "c05o", PRE, sample_old, "check_old") if sample_old else []
+    codes_old = core.coq_eval(ctx, "c05o_%d" % os.getpid(), PRE, sample_old, "check_old") if sample_old else []
 
     # ---------------- cross-locale: lone `_other`
     cps = cross_projects(ctx)
@@ -510,12 +665,16 @@ def run(ctx):
         citems.append("(%s, (@nil str), %s)" % (core.coq_list(lv), outs))
         cmeta.append({"locales": {l: sorted(v.keys()) for l, v in data.items()}, "default": list(data.keys())[0],
                       "pipeline_warnings": obj.get("warnings"), "merged_keys": merged if merged is not None else pm})
-    ccodes = core.coq_eval(ctx, "c05x", PRE, citems, "check_cross", min_per_shard=10)
+    ccodes = core.coq_eval(ctx, "c05x_%d" % os.getpid(), PRE, citems, "check_cross", min_per_shard=10)
     cross_fail = [dict(m, known_class=(c == 4)) for m, c in zip(cmeta, ccodes) if c in (3, 4)]
     cross_disagree = [m for m, c in zip(cmeta, ccodes) if c == 2]
 
     # ---------------- runtime level
     rtres = run_runtime(ctx, exe, known)
+
+    # ---------------- parse-time selection
+    rc, out, err = core.sh([exe, "rt"], timeout=600)
+    stres = run_static(ctx, exe, parse_rt(out))
 
     # ---------------- verdict
     def report_spec(name, inputs, explanation, klass):
@@ -547,6 +706,14 @@ def run(ctx):
                     "a locale that writes only `<key>_other` (all CLDR gives e.g. Japanese) is not merged into the plural key "
                     "other locales define: MissingKey `<key>` + SurplusKey `<key>_other`, and the locale renders the default "
                     "locale's text", "lone-other")
+    if stres["fail"]:
+        stres["fail"].sort(key=lambda m: (len(m["written_forms"]), m["locale"]))
+        core.violation(ctx, "static_select", {"failing_input": stres["fail"][0], "more": stres["fail"][1:3], "count": len(stres["fail"]),
+                                              "explanation": stres["fail"][0]["explanation"]})
+    if stres["other_args_fail"]:
+        core.violation(ctx, "static_count_arg", {"failing_input": stres["other_args_fail"][0], "more": stres["other_args_fail"][1:],
+                                                 "explanation": "a non-literal `count` argument must rename the count (single variable) or "
+                                                                "be Error::InvalidCountArg naming the referencing locale and key"})
     if rt_other:
         core.violation(ctx, "runtime_select", {"failing_input": rt_other[0], "more": rt_other[1:4], "count": len(rt_other)})
     if rtres["plural_macro_fail"]:
@@ -565,6 +732,10 @@ def run(ctx):
         corr.append("panic not predicted by the model")
     if shape_problems:
         corr.append("parsed tree does not have the generated shape")
+    if stres["disagree"]:
+        corr.append("correspondence Parser/Plurals.v (populate_with_count_arg) vs parse-time plural selection")
+    if stres["pipeline_problems"]:
+        corr.append("the parse pipeline failed on a project of literal-count references: %s" % json.dumps(stres["pipeline_problems"][0])[:300])
     if rtres["oracle_mismatch"]:
         corr.append("ICU4X plural table differs from Runtime/CldrRules.v")
     if corr and not ctx.violations:
@@ -592,8 +763,8 @@ def run(ctx):
         else:
             outcome[impl_err["kind"] if impl_err["kind"] in outcome else "other_err"] += 1
     core.write_evidence(ctx, {
-        "evaluations": len(acc) + len(citems) + rtres["rt_cases"] + 16,
-        "distinct_nontrivial": len(nontrivial) + rtres["rt_cases"],
+        "evaluations": len(acc) + len(citems) + rtres["rt_cases"] + 16 + stres["cases"],
+        "distinct_nontrivial": len(nontrivial) + rtres["rt_cases"] + stres["cases"],
         "rule": "parser level: random key maps per locale level (bases x cardinal/ordinal x random form subsets, collisions, "
                 "range/sub-object values, nested levels), corpus first; non-trivial = level with >= 2 plural-shaped keys, "
                 "distinct by Coq case term. runtime level: fixed project, every (locale, key, accessor) row of counts is one "
@@ -601,6 +772,9 @@ def run(ctx):
         "samples": [dict(m, code=c) for m, c in list(zip(metas, codes))[:3] + list(zip(metas, codes))[13:15]],
         "parser_level_cases": len(acc), "locales_merged": len(locale_results), "locale_outcomes": outcome,
         "runtime_renderings": rtres["renderings"], "icu_table_entries_compared_with_CldrRules": rtres["table_entries"],
+        "static_selection_cases": stres["cases"], "static_selection_references": stres["references"],
+        "static_selection_failures": len(stres["fail"]), "static_selection_disagreements": len(stres["disagree"]),
+        "static_count_arg_failures": len(stres["other_args_fail"]),
         "cross_locale_projects": len(citems), "cross_locale_failures": len(cross_fail),
         "cross_locale_disagreements": len(cross_disagree),
         "traces_validated_against_impl": len(acc),
@@ -617,6 +791,7 @@ def run(ctx):
         "Key::new (syn identifier check) is an oracle taken from the harness per base key",
         "merge_plurals' recursion into sub-keys is not modelled; levels are checked one by one by walking both trees",
         "generated code is observed through one fixed compiled project (h_plurals/locales), not proved"])
+    shutil.rmtree(root, ignore_errors=True)
 
 
 def replay(ctx, path):
@@ -626,7 +801,7 @@ def replay(ctx, path):
     print(json.dumps({k: v for k, v in obj.items() if k != "more"}, indent=1)[:6000])
     bindir = core.cargo_build("h_plurals")
     exe = os.path.join(bindir, "h_plurals")
-    root = os.path.join(ctx.work, "replay")
+    root = os.path.join(ctx.work, "replay_%d" % os.getpid())
     if "keys" in fi and "locale" in fi:                    # one level of one locale
         lvl = {n: tuple(v) for n, v in fi["keys"].items()}
         for n, v in lvl.items():
@@ -652,7 +827,7 @@ def replay(ctx, path):
         case = acc[0][0]
         print("MODEL merge_level:", core.coq_show(ctx, PRE, "let c := %s in merge_level (fun b => negb (mem_str b (c_bad_bases c))) "
               "(fun r => match r with Cardinal => c_cats_card c | Ordinal => c_cats_ord c end) (c_path c) (c_keys c)" % case))
-        code = core.coq_eval(ctx, "replay", PRE, [case], "check")[0]
+        code = core.coq_eval(ctx, "replay_%d" % os.getpid(), PRE, [case], "check")[0]
         print("VERDICT code %d (0 agree+spec, 1 outside domain, 2 differs from model, 3 spec_C05 false on the implementation's output)" % code)
         return 1 if code in (2, 3) else 0
     if "locales" in fi and "merged_keys" in fi:            # cross-locale project
@@ -676,12 +851,55 @@ def replay(ctx, path):
             outs = "(Some %s)" % core.coq_list([core.coq_list(["(%s, %s)" % (core.coq_str(n), coq_oval(t, data[l["name"]]))
                                                                for n, t in l["keys"]]) for l in pm["ok"]])
         print("MODEL merge_project:", core.coq_show(ctx, PRE, "merge_project (fun _ => true) (fun _ => all_forms) %s" % core.coq_list(lv)))
-        code = core.coq_eval(ctx, "replayx", PRE, ["(%s, (@nil str), %s)" % (core.coq_list(lv), outs)], "check_cross", min_per_shard=1)[0]
+        code = core.coq_eval(ctx, "replayx_%d" % os.getpid(), PRE, ["(%s, (@nil str), %s)" % (core.coq_list(lv), outs)], "check_cross", min_per_shard=1)[0]
         print("VERDICT code %d (0 agree+spec, 2 differs from model, 3/4 spec_cross false on the implementation's output)" % code)
+        return 1 if code != 0 else 0
+    if "final_value_ids" in fi:                              # parse-time selection of `$t(key, {"count": N})`
+        loc, pk, r = fi["locale"], fi["plural_key"], fi["rule"]
+        infix = "_ordinal" if r == "ordinal" else ""
+        files = {"en": {}, loc: {}} if loc != "en" else {"en": {}}
+        for l in files:
+            forms = fi["written_forms"] if l == loc else {f: 900 + i for i, f in enumerate(FORMS)}
+            for f, fid in forms.items():
+                files[l]["%s%s_%s" % (pk, infix, f)] = "#%d %s" % (fid, f)
+            for ci, c in enumerate(fi["counts"]):
+                files[l]["ref_n%d" % ci] = "$t(%s, {\"count\": %s})" % (pk, c)
+        shutil.rmtree(root, ignore_errors=True)
+        os.makedirs(os.path.join(root, "locales"))
+        with open(os.path.join(root, "Cargo.toml"), "w") as fh:
+            fh.write('[package]\nname = "p"\nversion = "0.1.0"\nedition = "2021"\n\n[package.metadata.leptos-i18n]\n'
+                     'default = "en"\nlocales = [%s]\n' % ", ".join('"%s"' % l for l in files))
+        for l, f in files.items():
+            json.dump(f, open(os.path.join(root, "locales", l + ".json"), "w"))
+        rc, out, err = core.sh([exe, "parse"], input=root + "\n", timeout=120)
+        pipe = json.loads(out.splitlines()[0])["pipeline"]
+        if not isinstance(pipe, dict) or "ok" not in pipe:
+            print("IMPLEMENTATION pipeline:", json.dumps(pipe))
+            return 1
+        final = dict(next(l for l in pipe["ok"]["final"] if l["name"] == loc)["keys"])
+        got = [final.get("ref_n%d" % ci, {}).get("id") for ci in range(len(fi["counts"]))]
+        byid = {str(v): k for k, v in fi["written_forms"].items()}
+        print("locale %s (default en), key %s, written forms %s" % (loc, pk, sorted(fi["written_forms"])))
+        print("count / CLDR category for %s / form selected at parse time:" % loc)
+        for c, cat, g in zip(fi["counts"], fi["cldr_category_for_this_locale"], got):
+            print("  %8s  %-6s %s" % (c, cat, byid.get(str(g), g)))
+        item = "(mk_scase %s %s %s)" % (core.coq_list(["(%s, %d)" % (COQ_FORM[f], fid) for f, fid in fi["written_forms"].items()]),
+                                        core.coq_list([COQ_FORM[c] for c in fi["cldr_category_for_this_locale"]]),
+                                        core.coq_list(["(Some %s)" % g if g else "None" for g in got]))
+        code = core.coq_eval(ctx, "replays_%d" % os.getpid(), PRE, [item], "check_static", min_per_shard=1)[0]
+        print("VERDICT code %d (0 agree+spec, 2 differs from model, 3 spec_static false: not the form CLDR assigns for this locale)" % code)
         return 1 if code != 0 else 0
     if "rendered_text" in fi:                               # runtime rendering of the fixed project
         rc, out, err = core.sh([exe, "rt"], timeout=600)
         rt = parse_rt(out)
+        if fi["accessor"].startswith("td_string!(locale, r"):
+            rows = dict(rt["F"].get((fi["locale"], fi["key"]), []))
+            print("IMPLEMENTATION td_string!(%s, r%s_%s) = %r; CLDR category %s; written forms %s" % (
+                fi["locale"], fi["key"], fi["count"], rows.get(fi["count"]), fi["cldr_category"], fi["written_forms"]))
+            want = fi["cldr_category"] if fi["cldr_category"] in fi["written_forms"] else "other"
+            ok_now = (rows.get(fi["count"]) or "").split("|")[:3] == [fi["locale"], fi["key"], want]
+            print("VERDICT", "holds now" if ok_now else "still violated")
+            return 0 if ok_now else 1
         tag = {"td_string!": "S", "td!(..).to_html()": "H"}.get(fi["accessor"], "O")
         row = rt[tag].get((fi["locale"], fi["key"]))
         opnds = rt["N"] if tag != "O" else rt["D"]
